@@ -33,6 +33,14 @@ CLAIMS = {
    text="All combinations of forward-user-id x strip-credentials x shim x sessions x forged identity header class x Authorization class x request kind (GET, POST, websocket-shim open) are executed (840 quick / 1440 thorough); what the backend saw is judged by IdentityOK / CredsOK in TLA+.",
    note="Trusted: TLC, fake proxy (asserts a fresh random identity per request), recording backend.",
    design="6 C09"),
+ "C08": dict(engine="AgentLife", technique="TLA+ spec AgentLife (back-off bounds Lo/Hi with lemmas; poll loop with NoBusyLoop / ResetOnSuccess; ShiftUnguarded attack) checked by TLC + retry counts enumerated by TLC run through the real ExponentialBackoffDuration + agent binary against a failing fake proxy + TLC trace validation (AgentLifeTrace)",
+   text="TLC checks the bound lemmas (strictly positive, doubling from 1 ms, capped at 3 s +-10%) for every retry count 0..70 and Big and the loop properties in the model; the real function is sampled (1000 / 100000 draws) at every enumerated count incl. 64, 2^32, 2^63-1, 2^63, 2^64-1 and its min/max judged against Lo/Hi; the real agent's loop (hooks ListFail/Backoff/ListOK, fake-proxy arrival times) is validated against the loop actions: retry counter = consecutive failures, delay within bounds, next list call not before Lo(n), reset after a success.",
+   note="Trusted: TLC, fake proxy clock. Upper bound of the observed gap is not enforced (scheduling noise). 64-bit retry counts are represented by the class Big (TLC integers are 32-bit).",
+   design="6 C08"),
+ "C20": dict(engine="AgentLife", technique="TLA+ spec AgentLife (health gating, consecutive-failure counting, poll loop, signal/cancel/grace on a discrete clock, independent workers; attacks PollBeforeHealthy, NoReset, CancelWorkers) checked by TLC + TLC-enumerated health histories and signal placements replayed on the real agent binary + TLC trace validation (AgentLifeTrace)",
+   text="TLC explores every health history (<=6 checks, thresholds 2-3), signal time and worker interleaving in the model; on the real binary, health histories enumerated by TLC (14 quick / 186 thorough, 1 s interval) and signal placements {idle, listed, at backend} x {SIGINT, SIGTERM} x grace/latency combinations are executed and every recorded run (hooks Healthy/Health/PollCheck/PollStop/Signal/Cancel/GraceEnd + harness observations of health replies, list calls, uploads, exit time) must be a behaviour of AgentLife.",
+   note="Trusted: TLC, scripted health endpoint, fake proxy, wall-clock thresholds (prompt <= 2 s, grace end within +2 s). The 'uploading' placement is not separately forced.",
+   design="6 C20"),
  "C01": dict(engine="Relay", technique="TLA+ spec Relay checked by TLC (exhaustive interleavings, liveness, IdCollision attack) + TLC trace validation (RelayTrace) of recorded executions of the real proxy/agent binaries, incl. -race builds",
    text="Bounded-exhaustive model checking of the proxy/agent relay design (all interleavings of 3 requests, 2-3 pollers, faults) plus conformance: every hook/observable event of bursts of up to 64 concurrent clients through the real binaries must be a behaviour of the specification, with the correlation invariants evaluated at every step.",
    note="Trusted: TLC, the token projection of the harness backend/clients, hook placement (receiver side of channel rendezvous). Bounds: 3 requests in the model, <=64 concurrent clients per burst in the runs. Race-detector reports count only with both stacks in repository code.",
